@@ -91,11 +91,19 @@ def run(ctx):
              + frame_type.to_bytes(2, "little") + gen.rbytes(rng, 2) + byteswap_bytes(burst + b"\x00") + gen.rbytes(rng, 2) + bytes([call])
              + (ident() << 8).to_bytes(4, "little") + (ident() << 8).to_bytes(4, "little") + gen.rbytes(rng, 1))
         frames.append(f)
+    # some frames are received twice in a row (a repeater's retransmission); the caller edits the first decoding before the
+    # second arrives, and both must still be judged as decodings of the frame
+    again = []
+    for k, f in enumerate(frames):
+        again.append(f)
+        if k % 4 == 1:
+            again.append(f)
+    frames = again
     samples = []
     for f in frames:
         # every other frame is decoded by a caller that edits the bursts it got back after use
         samples.append({"frame": list(f), "a": observe_path(f, False, len(samples) % 2 == 1), "b": observe_path(f, True, len(samples) % 2 == 1)})
-        ctx.count(core.digest(list(f)))
+        ctx.count(core.digest([len(samples), list(f)]))
     path = os.path.join(ctx.rundir, "c13_data.json")
     json.dump({"samples": samples}, open(path, "w"))
     ctx.sample({"frame_hex": bytes(samples[3]["frame"]).hex(), "bytes_path": {k: samples[3]["a"][k] for k in ("cls", "timeslot", "seq", "cc", "src", "dst", "err")}})
